@@ -581,3 +581,12 @@ where
 
 #[cfg(test)]
 mod tests;
+
+#[cfg(crux_verif)]
+impl<Effect, Event> Command<Effect, Event> {
+    /// Verification hook (read-only): the number of tasks this command currently holds,
+    /// without settling it first.
+    pub fn verif_live_tasks(&self) -> usize {
+        self.tasks.len()
+    }
+}
